@@ -15,9 +15,14 @@
 //	      f<i>        call the cancel closure returned by the i-th push
 //	      i           deliver one interrupt and wait until the goroutine has processed it
 //	      s           Stop
+//	      b<i>        the evaluator calls Read on a ctxreadseeker bound to the context of the i-th push
+//	                  and the underlying read blocks; d = the underlying read returns. While a call is
+//	                  blocked the evaluator does nothing else (only i and d are generated).
 //	obs = <e>/<w>[!]  after the op: e = one digit per context pushed so far, 1 iff Err() != nil;
 //	                  w = one digit per context, 1 iff a Write through the CtxWriter bound to it
-//	                  reached the sink; `!` = the op panicked (recovered)
+//	                  reached the sink; `!` = the op panicked (recovered); sequences with b/d ops have
+//	                  a third field: B = a call is blocked, c / d = it came back at this op with the
+//	                  cancellation error / with data, - = none
 package main
 
 import (
@@ -31,6 +36,7 @@ import (
 	"sync/atomic"
 	"time"
 
+	"github.com/wader/fq/internal/ctxreadseeker"
 	"github.com/wader/fq/internal/ctxstack"
 	"github.com/wader/fq/internal/iox"
 	"github.com/wader/fq/internal/verifharness/hlib"
@@ -54,6 +60,8 @@ func (o op) String() string {
 		return "p" + strconv.Itoa(o.arg)
 	case 'f':
 		return "f" + strconv.Itoa(o.arg)
+	case 'b':
+		return "b" + strconv.Itoa(o.arg)
 	}
 	return string(o.kind)
 }
@@ -73,11 +81,11 @@ func parseOps(s string) ([]op, error) {
 			continue
 		}
 		switch {
-		case w == "i" || w == "s":
+		case w == "i" || w == "s" || w == "d":
 			ops = append(ops, op{kind: w[0]})
 		case w == "p-":
 			ops = append(ops, op{kind: 'p', arg: -1})
-		case w[0] == 'p' || w[0] == 'f':
+		case w[0] == 'p' || w[0] == 'f' || w[0] == 'b':
 			n, err := strconv.Atoi(w[1:])
 			if err != nil || n < 0 {
 				return nil, fmt.Errorf("bad op %q", w)
@@ -138,6 +146,13 @@ type rig struct {
 	pops    []func()
 	sinks   []*sink
 	writers []iox.CtxWriter
+	call    *readCall // the outstanding blocked call, if any
+}
+
+type readCall struct {
+	ctx  context.Context
+	b    *blocker
+	done chan error
 }
 
 func newRig() *rig {
@@ -228,6 +243,64 @@ func (r *rig) observe() string {
 	return e.String() + "/" + w.String()
 }
 
+// startRead: Read through ctxreadseeker bound to context i; returns when the underlying read is
+// blocked or the call has come back
+func (r *rig) startRead(i int) {
+	if r.call != nil {
+		return // the evaluator is stuck in the earlier call
+	}
+	b := newBlocker("read", 1)
+	rd := ctxreadseeker.New(r.ctxs[i], bseekfile{&bfile{b: b, data: blockedData, regular: true}})
+	c := &readCall{ctx: r.ctxs[i], b: b, done: make(chan error, 1)}
+	go func() {
+		_, err := rd.Read(make([]byte, 8))
+		c.done <- err
+	}()
+	r.call = c
+	select {
+	case <-b.blockedCh:
+	case err := <-c.done:
+		c.done <- err
+	case <-time.After(2 * time.Second):
+	}
+}
+
+// reader: B = still blocked, c/d = came back now (cancelled / data), - = no call
+func (r *rig) reader() string {
+	c := r.call
+	if c == nil {
+		return "-"
+	}
+	wait := 300 * time.Microsecond
+	if c.ctx.Err() != nil {
+		// it has to come back; a reader that does not is reported as B (after a few such
+		// reports the wait is cut so that a broken reader does not stall the whole run)
+		wait = 2 * time.Second
+		if readTimeouts >= 5 {
+			wait = 50 * time.Millisecond
+		}
+	}
+	select {
+	case err := <-c.done:
+		r.call = nil
+		c.b.release()
+		switch err {
+		case nil:
+			return "d"
+		case context.Canceled:
+			return "c"
+		}
+		return "X"
+	case <-time.After(wait):
+		if c.ctx.Err() != nil {
+			readTimeouts++
+		}
+		return "B"
+	}
+}
+
+var readTimeouts int
+
 func (r *rig) do(o op) (panicked bool) {
 	_, panicked = hlib.Catch(func() string {
 		switch o.kind {
@@ -240,6 +313,17 @@ func (r *rig) do(o op) (panicked bool) {
 		case 's':
 			defer func() { r.stopped = true }()
 			r.s.Stop()
+		case 'b':
+			r.startRead(o.arg)
+		case 'd':
+			if r.call != nil {
+				r.call.b.release()
+				select {
+				case err := <-r.call.done:
+					r.call.done <- err
+				case <-time.After(2 * time.Second):
+				}
+			}
 		}
 		return ""
 	})
@@ -259,21 +343,41 @@ func valid(ops []op) error {
 			if o.arg >= n {
 				return fmt.Errorf("closure %d does not exist yet", o.arg)
 			}
+		case 'b':
+			if o.arg >= n {
+				return fmt.Errorf("context %d does not exist yet", o.arg)
+			}
 		}
 	}
 	return nil
 }
 
+func hasReads(ops []op) bool {
+	for _, o := range ops {
+		if o.kind == 'b' || o.kind == 'd' {
+			return true
+		}
+	}
+	return false
+}
+
 func runSeq(ops []op) string {
 	r := newRig()
 	obs := make([]string, len(ops))
+	reads := hasReads(ops)
 	for k, o := range ops {
 		tick("seq " + opsString(ops))
 		p := r.do(o)
 		obs[k] = r.observe()
+		if reads {
+			obs[k] += "/" + r.reader()
+		}
 		if p {
 			obs[k] += "!"
 		}
+	}
+	if r.call != nil {
+		r.call.b.release()
 	}
 	if !r.stopped {
 		r.do(op{kind: 's'}) // let the goroutine go
@@ -344,6 +448,103 @@ func enumerate(length, maxPush, maxStop, parents int, emit func([]op)) {
 		}
 	}
 	rec(0, 0)
+}
+
+// genSpec: what the generator needs to know to keep its sequences well-formed (no evaluator
+// operation while a call is blocked). Used for generation only, never for judging.
+type genSpec struct {
+	parent    []int
+	running   []bool
+	cancelled []bool
+	stopped   bool
+	blocked   int // context of the blocked call, -1 if none
+}
+
+func (g *genSpec) err(c int) bool {
+	for ; c >= 0; c = g.parent[c] {
+		if g.cancelled[c] {
+			return true
+		}
+	}
+	return false
+}
+
+func (g *genSpec) apply(o op) {
+	switch o.kind {
+	case 'p':
+		g.parent = append(g.parent, o.arg)
+		g.running = append(g.running, true)
+		g.cancelled = append(g.cancelled, false)
+	case 'f':
+		if g.running[o.arg] {
+			for j := o.arg; j < len(g.running); j++ {
+				if g.running[j] {
+					g.running[j], g.cancelled[j] = false, true
+				}
+			}
+		}
+	case 'i':
+		if !g.stopped {
+			for j := len(g.running) - 1; j >= 0; j-- {
+				if g.running[j] {
+					g.cancelled[j] = true
+					break
+				}
+			}
+		}
+	case 's':
+		for j := range g.running {
+			if g.running[j] {
+				g.cancelled[j] = true
+			}
+		}
+		g.stopped = true
+	case 'b':
+		if g.blocked < 0 {
+			g.blocked = o.arg
+		}
+	case 'd':
+		g.blocked = -1
+	}
+	if g.blocked >= 0 && g.err(g.blocked) {
+		g.blocked = -1
+	}
+}
+
+// randomReadOps: like randomOps with blocked reads; while a call is blocked only i and d occur
+func randomReadOps(r *hlib.Rand, maxLen int) []op {
+	length := r.Range(2, maxLen)
+	var ops []op
+	g := &genSpec{blocked: -1}
+	add := func(o op) { ops = append(ops, o); g.apply(o) }
+	for len(ops) < length {
+		n := len(g.running)
+		if g.blocked >= 0 {
+			if r.Intn(3) == 0 {
+				add(op{kind: 'd'})
+			} else {
+				add(op{kind: 'i'})
+			}
+			continue
+		}
+		switch k := r.Intn(10); {
+		case k < 3 && n < 8:
+			p := -1
+			if n > 0 && r.Bool() {
+				p = n - 1
+			}
+			add(op{kind: 'p', arg: p})
+		case k < 5 && n > 0:
+			add(op{kind: 'f', arg: n - 1 - r.Intn(min(n, 3))})
+		case k < 6:
+			add(op{kind: 'i'})
+		case k < 9 && n > 0:
+			add(op{kind: 'b', arg: n - 1 - r.Intn(min(n, 2))})
+		case k == 9 && r.Intn(6) == 0:
+			add(op{kind: 's'})
+		}
+	}
+	return ops
 }
 
 func randomOps(r *hlib.Rand, maxLen int) []op {
@@ -452,6 +653,38 @@ func modeSeq(cfg hlib.Config, o *hlib.Out, shard, shards int) {
 		}
 	}
 	o.Stat("seq_random_sequences", nRandom)
+	// blocked reads (only on shard 0: every such op waits a little for the reader to settle)
+	if shard == 0 {
+		for _, p := range pinnedReads {
+			ops, err := parseOps(p)
+			if err != nil {
+				panic(err)
+			}
+			seqCase(o, ops, "")
+		}
+		nReads := 400
+		if cfg.Thorough() {
+			nReads = 5000
+		}
+		for i := 0; i < nReads; i++ {
+			seqCase(o, randomReadOps(r, 14), "")
+		}
+		o.Stat("seq_read_sequences", nReads+len(pinnedReads))
+	}
+}
+
+var pinnedReads = []string{
+	// innermost evaluation blocked in a read: interrupt gets it out, enclosing context stays live
+	"p-;p0;b1;i",
+	"p-;p0;b1;d;i",
+	// reader of an enclosing (not innermost) context: the interrupt hits the innermost, the reader stays blocked
+	"p-;p-;b0;i;d",
+	// child of the interrupted context: cancelled by propagation
+	"p-;p0;f1;p0;b2;i",
+	"p-;b0;i;i;d;b0",
+	// read on an already cancelled context does not block
+	"p-;i;b0;d",
+	"p-;s;b0",
 }
 
 func main() {
@@ -486,6 +719,13 @@ func main() {
 			// a harness-decided verdict is replayed by its trailing `conc @… <scenario>` text
 			if k := strings.Index(l, "conc @"); k > 0 {
 				l = l[k:]
+			}
+			if k := strings.Index(l, "blockedread "); k >= 0 {
+				if mode == "interp" {
+					v := strings.TrimSuffix(strings.Fields(l[k:])[1], ":")
+					blockedChecks(o, v)
+				}
+				continue
 			}
 			if mode == "interp" && strings.Contains(l, "ctxchain") {
 				ctxChainCheck(o)
